@@ -27,6 +27,8 @@
    K    two hops relative to the source with aggregator rollbacks: `two_hop_converges_no_skip`,
         `two_hop_agents_same_hash` (non-compact chain); `two_hop_compact_rollback_counterexample` (FINDING: false for a
         compact aggregator restarted from an older file)
+   L    `load_any_cut` (+ `load_strict_prefix_lv`, `load_err_iff_tail`): reload of a saved file cut anywhere, also exactly
+        at a chunk boundary where no read error occurs: Faithful, and the header's loaderVersion is not believed
    Helper developments: SH/Lemmas/Journal.lean (E, F, G), SH/Lemmas/JournalConv.lean (J), SH/Lemmas/JournalChain.lean (K).
    Partial: a replica whose upstream itself is rolled back (agent behind a restarting aggregator) is outside
    `converges` (comment after `replicas_same_hash`); the direct oracle of cmd/verif-c20 checks it on the real code.
@@ -1311,5 +1313,47 @@ theorem two_hop_compact_rollback_counterexample :
 
 /-- the compact aggregator alone is fine in that run (one hop, `converges`): it holds storedAs of the source's latest -/
 example : storedAs tabK true 2 = some 10 ∧ storedAs tabK true 3 = some 13 := by decide
+
+/-! ## L. reload of a file cut exactly at a chunk boundary -/
+
+/-- C20 (reload at chunk granularity — the statement `sf_load` needs, tied to `load` on chunk-boundary cuts). A file
+    written by `save` and cut at ANY byte offset — in particular exactly at a chunk boundary, where `load` sees no error
+    (`load_err_iff_tail`) — is reloaded into a journal that (1) is `Faithful` up to the loaderVersion it reports, and
+    (2) whenever events of the saved journal are missing from what was read, reports as loaderVersion the version of the
+    last event read, not the header's. -/
+theorem load_any_cut (tab : Nat → Content) (hsz : ∀ k, 0 < (tab k).sz) (d : Nat) (Rs S R' : J) (H : List Entry) (keep : Nat)
+    (bs : List (List Entry)) (err : Bool) (hRs : Rep tab d Rs S H)
+    (hl : load false (truncate (saveFile Rs) keep) = some (R', bs, err)) :
+    Rep tab d R' S H ∧ err = decide ((truncate (saveFile Rs) keep).tail ≠ 0) ∧
+    ((((truncate (saveFile Rs) keep).chunks.map (·.evs)).flatten ≠ Rs.entries) → R'.lv = R'.cur) := by
+  have hf := filesf_truncate tab d _ S H keep (filesf_save tab hsz d Rs S H hRs)
+  refine ⟨sf_load tab d _ S R' H bs err hf hl, load_err_iff_tail _ _ _ _ _ hl, ?_⟩
+  intro hstrict
+  have hsaved : ((saveFile Rs).chunks.map (·.evs)).flatten = Rs.entries := by
+    have : ∀ e ∈ Rs.entries, 0 < e.sz := by
+      intro e he
+      obtain ⟨h, _, rfl⟩ := hRs.fa.f2 e he
+      simp only [img, mkEntry]; exact hsz _
+    have := packChunks_flatten Rs.entries headerBytes [] (by simp [headerBytes]) this
+    simp only [saveFile]; rw [this]; simp
+  have hpre : ((truncate (saveFile Rs) keep).chunks.map (·.evs)).flatten <+: Rs.entries := by
+    rw [← hsaved]; exact flatten_prefix _ _ (truncate_keeps_prefix _ keep)
+  have hcur : (truncate (saveFile Rs) keep).cur = Rs.cur := by
+    unfold truncate; split <;> rfl
+  exact load_strict_prefix_lv false _ Rs R' bs err hRs.jx hpre hstrict hcur hl
+
+/-- non-vacuity: a journal of three 300000-byte entries is saved as two chunks (ends 600040 and 900064); cut exactly at
+    the first boundary it reads back without error, holds the first two entries, and reports loaderVersion 2 (the last
+    event read), not the header's 7 -/
+def tabBig : Nat → Content := fun k =>
+  { typ := 0, id := k, name := [], dlen := 0, sz := 300000, hash := 1000 + k, ok := true, dis := false, t := k, c := some k }
+def jBig : J :=
+  { entries := [mkEntry tabBig 1 1, mkEntry tabBig 2 2, mkEntry tabBig 3 3], hash := 1001 ^^^ 1002 ^^^ 1003, cur := 3, lv := 7 }
+
+example : (saveFile jBig).chunks.map (·.size) = [600040, 300024] := by decide
+example : ∃ R bs, load false (truncate (saveFile jBig) 600040) = some (R, bs, false) ∧
+    R.entries.map (·.ver) = [1, 2] ∧ R.cur = 2 ∧ R.lv = 2 := ⟨_, _, rfl, by decide, by decide, by decide⟩
+/-- uncut, the header is believed -/
+example : ∃ R bs, load false (saveFile jBig) = some (R, bs, false) ∧ R.cur = 3 ∧ R.lv = 7 := ⟨_, _, rfl, by decide, by decide⟩
 
 end SH.C20
